@@ -1132,6 +1132,36 @@ example : logical memJ vJ = [1, 1, 1, 0, 1, 1, 0, 0, 1, 0, 0, 0, 0, 0, 0, 0] ∧
 end Mahotas.C08.Example4
 
 
+/-- **`iterate_both` reads the position from the array iterator** (closes the gap left in rounds 2/3, where the filter
+model carried its own copy of the odometer). The loop as the C++ runs it — `iterate_both` takes `index_rev(d)` and
+`dimension_rev(d)` from the ARRAY iterator (the transliterated `Iter` over a view of any strides), moves the table pointer,
+then `++iterator` — reaches after `i < size` iterations exactly the array iterator `begin().incrN i` and the table pointer
+of `FilterIter.stateAfter` (the state F6 `filterIter_refines` is about), so `retrieve` through the joint state is the
+`FiltV.retrieve` every view kernel of `Model/C08Base.lean` uses. -/
+theorem C08_iterate_both_reads_iterator_position {α : Type} (isNZ : α → Bool) (vA : View) (mF : Int → α) (vF : View)
+    (m : Mode) (compress : Bool) (h : FilterArgs vA vF compress) (mem : Int → α) (i : Nat)
+    (hi : i < shapeSize vA.shape) (j : Nat) :
+    (bothAfter (mkFiltV isNZ vA mF vF m compress).fi vA i).it = (Iter.begin vA).incrN i ∧
+    (bothAfter (mkFiltV isNZ vA mF vF m compress).fi vA i).cur =
+      (FilterIter.stateAfter (mkFiltV isNZ vA mF vF m compress).fi vA.shape i).cur ∧
+    retrieveBoth (mkFiltV isNZ vA mF vF m compress) mem vA i j =
+      (mkFiltV isNZ vA mF vF m compress).retrieve mem (iterPtr vA i) i j := by
+  have hc := bothAfter_cur m vA h.wfA vF.shape
+    (if compress then ((filtVals mF vF).map isNZ).toArray else Array.replicate (shapeSize vF.shape) true)
+    h.rank h.posA h.posF i (Nat.le_of_lt hi)
+  refine ⟨bothAfter_it _ vA i, hc, ?_⟩
+  unfold retrieveBoth FiltV.retrieve FilterIter.retrieve
+  simp only [bothAfter_it]
+  have hc' : (bothAfter (mkFiltV isNZ vA mF vF m compress).fi vA i).cur =
+      (FilterIter.stateAfter (mkFiltV isNZ vA mF vF m compress).fi (mkFiltV isNZ vA mF vF m compress).ashape i).cur := hc
+  rw [hc']
+  rfl
+
+example : (bothAfter (mkFiltV (fun x => x != 0) Mahotas.C08.Example4.vRF Mahotas.C08.Example4.memX Mahotas.C08.Example4.vX .nearest true).fi
+      Mahotas.C08.Example4.vRF 4).it.data = 4 ∧
+    retrieveBoth (mkFiltV (fun x => x != 0) Mahotas.C08.Example4.vRF Mahotas.C08.Example4.memX Mahotas.C08.Example4.vX .nearest true)
+      Mahotas.C08.Example4.memR Mahotas.C08.Example4.vRF 8 0 = some 1 := by decide +kernel
+
 /-! ## Round 4 — the in-place wavelet kernels on strided rows (`haar`, `ihaar`, `daubechies`, `idaubechies`, `inline=True`
 included): `Model/C08ViewsB.lean`
 
